@@ -8,9 +8,9 @@ export GOFLAGS=-mod=mod GOPROXY=off GOSUMDB=off GOTOOLCHAIN=local
 COPY=$(mktemp -d /tmp/mutconf-XXXXXX)
 trap 'rm -rf "$COPY"' EXIT
 cp -r /repo/. "$COPY"/ && cd "$COPY" && git checkout -q -- . || exit 3
-FP="${SEED_FILEPFX:-zz_seed}"; TP="${SEED_TESTPFX:-TestSeed}"
+FP="${SEED_FILEPFX:-zz_seed2?}"; TP="${SEED_TESTPFX:-TestSeed2?}"
 rel=$(grep -hoE "(v2/[a-z/]*|cmd/[a-z/]*)${FP}_${ID}_${V}[A-Za-z0-9_]*\.go" "$SD/README.md" | head -1)
-[ -z "$rel" ] && rel="${FP}_${ID}_${V}_test.go"
+[ -z "$rel" ] && rel="zz_seed_${ID}_${V}_test.go"
 dir=$(dirname "$rel")
 demo=$(ls "$SD"/demo*_test.go "$SD"/demo_test.go 2>/dev/null | head -1)
 [ -z "$demo" ] && { echo "DEMO-NOT-CONFIRMED no demo test file"; exit 1; }
